@@ -81,6 +81,8 @@ structure St where
   heap : Heap := ⟨[], []⟩
   cur : Option Obj := none
   cp : Option Obj := none
+  /-- the result of `keepf`, held by the caller (a value: later writes do not reach it) -/
+  kept : List Nat := []
 
 def St.get (st : St) (which : Bool) : Option (Obj × ASeq) :=
   match (if which then st.cp else st.cur) with
@@ -131,6 +133,15 @@ def step (st : St) (line : String) : St × String :=
       | .ok r => (st, "ok " ++ showSeq r)
       | .error e => (st, showErr e)
     | _, _ => (st, "bad-op")
+  | ["keepf", f] =>
+    match st.get false, parseFeature f with
+    | some (_, s), some f =>
+      if hasTies f.locs then (st, "unmodelled") else
+      match getFeature s f with
+      | .ok r => ({ st with kept := r }, "ok " ++ showSeq r)
+      | .error e => (st, showErr e)
+    | _, _ => (st, "bad-op")
+  | ["kept"] => (st, "ok " ++ showSeq st.kept)
   | ["setf", f, x] =>
     match st.get false, parseFeature f, parseSeq x with
     | some (o, s), some f, some x =>
